@@ -635,7 +635,7 @@ func (v Int256Value) BitwiseLeftShift(context ValueStaticTypeContext, other Inte
 		res = toTwosComplement(res, v.BigInt, 256)
 		res = res.Lsh(res, uint(o.BigInt.Uint64()))
 		res = truncate(res, 256/bits.UintSize)
-		return fromTwosComplement(res)
+		return fromTwosComplement(res, 256)
 	}
 
 	return NewInt256ValueFromBigInt(context, valueGetter)
@@ -655,6 +655,10 @@ func (v Int256Value) BitwiseRightShift(context ValueStaticTypeContext, other Int
 		panic(&NegativeShiftError{})
 	}
 	if !o.BigInt.IsUint64() {
+		// All value bits are shifted out: the result of the arithmetic shift is the sign
+		if v.BigInt.Sign() < 0 {
+			return NewInt256ValueFromInt64(context, -1)
+		}
 		return NewInt256ValueFromInt64(context, 0)
 	}
 
